@@ -96,6 +96,12 @@ func (st *State) doCall(instr *ssa.Call, c *ssa.CallCommon, fnv Value, args []Va
 		if key == "" {
 			key = "funcvalue:" + c.Value.Name()
 		}
+		if e.specs.Funcs[key] == nil {
+			if clo := st.resolveClosure(fnv); clo != nil {
+				fnv.Clo = clo
+				return st.doCall(instr, c, fnv, args, pos, deferred)
+			}
+		}
 		if !fnv.Tm.IsZero() {
 			st.check("nil", st.textAt(pos, "call of func value"), pos, Ne(fnv.Tm, IntLit(0)))
 		}
@@ -124,6 +130,22 @@ func (st *State) doCall(instr *ssa.Call, c *ssa.CallCommon, fnv Value, args []Va
 			return true
 		}
 		return st.finishCall(instr, r, deferred)
+	}
+	// caller-side assertions attached to calls of this callee ("before <callee>: assert e"), top-level frame only
+	if fr := st.frame; fr.parent == nil && fr.spec != nil && fr.spec.Before != nil {
+		if cs := fr.spec.Before[key]; len(cs) > 0 {
+			if st.u.beforeHit == nil {
+				st.u.beforeHit = map[string]bool{}
+			}
+			st.u.beforeHit[key] = true
+			for _, bc := range cs {
+				env := st.newEnv(fr, nil)
+				t := env.evalBool(bc.E)
+				st.assumeAll(env.defs)
+				st.u.addObl(st, "assert", "before "+key+"/"+clauseName(bc), pos, t, false)
+				st.assume(t)
+			}
+		}
 	}
 	spec := e.specs.Funcs[key]
 	// a contract specific to the struct field the receiver was loaded from
@@ -527,6 +549,12 @@ func (st *State) applySpec(spec *FuncSpec, sig *types.Signature, args []Value, p
 	}
 	if len(names) != len(args) {
 		panic(engineErr("contract %s: %d parameter names for %d arguments", spec.Key, len(names), len(args)))
+	}
+	// closures passed as arguments: the contract sees their (non-nil) identity term
+	for i := range args {
+		if args[i].Clo != nil && args[i].Tm.IsZero() {
+			args[i].Tm = st.closureTerm(args[i])
+		}
 	}
 	pre := st.clone()
 	pre.entry = nil
